@@ -129,6 +129,10 @@ var names = []string{"a", "b", "c"}
 var oddNames = []string{"a", "ab", "a/b", "a b", "aé", "A"}
 var useOddNames bool
 
+// useLegacyVals: in one scenario out of eight most values travel in the deprecated Update.value field (a target
+// that still speaks the old encoding does so for every leaf), so that such values meet each other on one leaf.
+var useLegacyVals bool
+
 func genElem(t *rapid.T, glob, small bool) gn.Elem {
 	alpha := names
 	if small {
@@ -175,7 +179,13 @@ func genElems(t *rapid.T, min, max int, glob, small bool) []gn.Elem {
 }
 
 func genVal(t *rapid.T) gn.Val {
-	switch rapid.IntRange(0, 15).Draw(t, "vkind") {
+	if useLegacyVals && rapid.IntRange(0, 3).Draw(t, "legacy") > 0 {
+		return gn.Val{Kind: "deprecated", S: rapid.SampledFrom([]string{`1`, `2`, `"x"`, ``}).Draw(t, "dep")}
+	}
+	switch rapid.IntRange(0, 16).Draw(t, "vkind") {
+	case 16:
+		// the deprecated Update.value field (bytes + encoding), val unset
+		return gn.Val{Kind: "deprecated", S: rapid.SampledFrom([]string{`1`, `2`, `"x"`, ``}).Draw(t, "dep")}
 	case 12:
 		// pairs that differ only beyond the precision of a float32 / float64
 		return gn.Val{Kind: "decimal", F: 2, I: rapid.SampledFrom([]int64{5, 123456789, 123456790, 1677721600, 1677721700}).Draw(t, "digits")}
@@ -218,7 +228,10 @@ func genTS(t *rapid.T, thr int64) TS {
 	}
 	mode := rapid.SampledFrom([]string{"leaf", "leaf", "leaf", "latest", "now"}).Draw(t, "tsmode")
 	ds := []int64{-3, -1, 0, 0, 1, 1, 2, 7}
-	if thr > 0 {
+	switch {
+	case thr > 1<<40:
+		ds = append(ds, 1000, 1<<40, 1<<50)
+	case thr > 0:
 		ds = append(ds, thr-1, thr, thr+1, thr+2, 2*thr+3, 3*thr)
 	}
 	return TS{Mode: mode, D: rapid.SampledFrom(ds).Draw(t, "tsd")}
@@ -326,10 +339,13 @@ func genScenario(prop string) func(t *rapid.T) *Scenario {
 	pr := profiles[prop]
 	return func(t *rapid.T) *Scenario {
 		useOddNames = rapid.IntRange(0, 4).Draw(t, "odd-names") == 0
+		useLegacyVals = rapid.IntRange(0, 7).Draw(t, "legacy-values") == 3
 		sc := &Scenario{Targets: rapid.IntRange(pr.minTargets, pr.maxTargets).Draw(t, "targets")}
 		sc.EventDriven = rapid.IntRange(0, 3).Draw(t, "eventdriven") > 0
 		if pr.threshold && rapid.IntRange(0, 2).Draw(t, "usethr") == 0 {
-			sc.Threshold = int64(rapid.SampledFrom([]int{5, 20, 100}).Draw(t, "thr"))
+			// small thresholds around which the timestamps are generated, and thresholds that mean "never reject"
+			// (time.Duration(math.MaxInt64), centuries): every sum of a threshold and a timestamp wraps
+			sc.Threshold = rapid.SampledFrom([]int64{5, 20, 100, 5, 20, 100, math.MaxInt64, math.MaxInt64 - 1, 1 << 62, 290 * 365 * 24 * 3600 * 1_000_000_000}).Draw(t, "thr")
 		}
 		sc.Steps = rapid.SliceOfN(rapid.Custom(genStep(pr, sc.Targets, sc.Threshold)), 1, pr.maxSteps).Draw(t, "steps")
 		if len(sc.Steps) < 12 && rapid.IntRange(0, 3).Draw(t, "longer") > 0 {
